@@ -57,15 +57,17 @@ def c14_fva(E, procs=(2,), templates=(("T2", ("EX_A",)),), nitems=2):
         return
     same(E, before, observe(m), "caller-model-unchanged", what="fva")
     E.prove(list(par.index) == perm, "index-follows-requested-order")
-    for rid in ids:
+    if list(par.index) != perm:
+        return
+    for i, rid in enumerate(perm):
         for col in ("minimum", "maximum"):
-            a, b = serial.at[rid, col], par.at[rid, col]
-            E.prove((_nan(a) and _nan(b)) or E.eq(a, b), "parallel=serial", reaction=rid, what=col, processes=p)
+            a, b = serial.at[rid, col], par[col].iloc[i]
+            E.prove((_nan(a) and _nan(b)) or E.eq(a, b), "parallel=serial", reaction=rid, what=col, processes=p, row=i)
     # asking for one item alone gives the same value
     one = ids[E.choice("single_item", len(ids), ids)]
     alone = flux_variability_analysis(m, reaction_list=[one], processes=1)
     for col in ("minimum", "maximum"):
-        E.prove(E.eq(alone.at[one, col], par.at[one, col]), "item-alone=item-in-list", reaction=one, what=col)
+        E.prove(E.eq(alone.at[one, col], par[col].iloc[perm.index(one)]), "item-alone=item-in-list", reaction=one, what=col)
 
 
 def c14_deletion(E, procs=(2,)):
